@@ -4,7 +4,7 @@
  *   -DVERIF_WHAT=2  bus_client_policy_check_can_own -> bus_rules_check_can_own
  *   -DVERIF_N=k     rule list of length <= k, built by the harness (no mempool)
  *   -DVERIF_GAP=0   main unit: everything outside the two documented man-page/code gaps G1, G2
- *   -DVERIF_GAP=1/2 the gap region G1 / G2 only (policy_ref.h, end): expected red until triaged
+ *   -DVERIF_GAP=1/2 the gap region G1 / G2 only (policy_ref.h, end): red on the pinned tree; role finder until triaged
  * Real code: bus/policy.c (pristine, #included), dbus/dbus-list.c, dbus/dbus-string.c.
  * Message accessors and registry questions are contracts written as stubs over the facts record F. */
 #include "c06_common.h"
